@@ -79,9 +79,20 @@ public:
 
     friend duration
     operator-(const time_point& a, const time_point& b) noexcept {
-      return duration(
-          (a.seconds_ - b.seconds_) * 10'000'000 +
-          (a.nanoseconds_ - b.nanoseconds_) / 100);
+      // Make the signs of the two parts of the difference agree before
+      // converting, so that the result is the exact difference truncated
+      // towards zero (as duration_cast does) rather than each part truncated
+      // on its own.
+      std::int64_t seconds = a.seconds_ - b.seconds_;
+      long long nanoseconds = a.nanoseconds_ - b.nanoseconds_;
+      if (seconds > 0 && nanoseconds < 0) {
+        seconds -= 1;
+        nanoseconds += 1'000'000'000;
+      } else if (seconds < 0 && nanoseconds > 0) {
+        seconds += 1;
+        nanoseconds -= 1'000'000'000;
+      }
+      return duration(seconds * 10'000'000 + nanoseconds / 100);
     }
 
     template <typename Rep, typename Ratio>
